@@ -301,9 +301,10 @@ def cases(tier, seed):
             dname = "x".join(map(str, dec))
             if not (q and len(decs) > 6 and sum(dec) % 2 == 1 and g not in ("cart1", "cart2")):
                 out.append({"name": f"tiling:{g}:{dname}", "scenario": "scenario_tiling", "cfg": {"grid": g, "dec": list(dec)}})
+            periodic_grid = any(spec.get("periodic", ())) or bool(spec.get("periodic_z"))
             ops = ["laplace"] if q else ["laplace", "gradient", "divergence"]
-            for op in ops:
-                for rot in (0, 2) if q else range(4):
+            for op in ops + (["divergence"] if q and periodic_grid else []):
+                for rot in ((0, 2) if op == "laplace" else (1,)) if q else range(4):
                     out.append({"name": f"data:{g}:{dname}:{op}:rot{rot}", "scenario": "scenario_data", "cfg": {"grid": g, "dec": list(dec), "op": op, "rot": rot}})
             if any(spec.get("periodic", ())) or spec.get("periodic_z"):
                 per = list(spec.get("periodic", ())) or [False, bool(spec.get("periodic_z"))]
@@ -325,7 +326,7 @@ CANARIES = [
     {
         "name": "anti-periodic-flip-lost-on-subgrids",
         "case": "data:cart2:periodic-y:2x1:laplace:anti-periodic:seam-unsplit",
-        "patch": [("pde.grids.boundaries.local:_PeriodicBC.to_subgrid", "flip_sign=self.flip_sign", "rank=self.rank")],
+        "patch": [("pde.grids.boundaries.local:_PeriodicBC.to_subgrid", "flip_sign=self.flip_sign,", "")],
         "expect": "combined",
     },
     {
